@@ -348,6 +348,15 @@ def _run_case(spec):
             else:
                 h, dh = a, dense
             nondefault = o.get('UPLO', 'L') != 'L' or o['sort'] is not None
+            if herm and h.legs[0].is_blocked() and h.legs[1].is_blocked():
+                # documented: only the triangle selected by UPLO is read.  Make that observable: spoil the other triangle (for blocked
+                # legs no index is permuted, so the triangles of the charge blocks are the triangles of the matrix)
+                other = np.triu(np.ones_like(dh, dtype=bool), 1) if o['UPLO'] == 'L' else np.tril(np.ones_like(dh, dtype=bool), -1)
+                spoiled = np.where(other, 3. * dh + 0.5 * (dh != 0), dh)
+                h = npc.Array.from_ndarray(spoiled, h.legs, dtype=h.dtype, qtotal=h.qtotal, labels=h.get_leg_labels())
+                info_uplo = True
+            else:
+                info_uplo = False
             h0 = h.to_ndarray().copy()
             if o['vals_only']:
                 W = npc.eigvalsh(h, UPLO=o['UPLO'], sort=o['sort']) if herm else npc.eigvals(h, sort=o['sort'])
